@@ -64,7 +64,7 @@ def ctx_writers(E):
 
 def _all_none_init(e):
     """`vec![None; n].into()`"""
-    for c in exprs(e, ("Call", "MethodCall")):
+    for c in exprs_deep(e, ("Call", "MethodCall")):
         cal = norm(c.get("callee", ""))
         if cal.endswith("vec::from_elem"):
             return def_path(c["args"][0]) == "core::option::Option::None"
